@@ -141,8 +141,36 @@ def r4_qualifier_local(c, facts):
             c.bad(R, 'qualifier-walk-not-that-module', 'the variables visited by rename_qualifier do not come from the module of the import')
 
 
+def r6_prepare_target(c, facts):
+    """prepareRename offers the range of the identifier that rename will replace, selected through the same accessors"""
+    R = c.rule('C18.R6', 'PREPARE-TARGET: the range offered by prepareRename is the identifier node that rename edits (declaration, qualifier or unqualified variable identifier), not the token under the cursor')
+    pr = c.anchor(R, 'oal_client::lsp::handlers::prepare_rename')
+    idx = MF.defs_index(pr)
+    sites = P.call_blocks(pr, 'unicode::utf8_range_to_position')
+    if not sites:
+        c.bad(R, 'prepare_rename:no-range', 'prepare_rename no longer converts a span into the offered range')
+        return
+    want = {'Declaration::identifier', 'Qualifier::identifier', 'Variable::identifier'}
+    for b, t in sites:
+        sl = MF.slice_back(pr, t['args'][1]['l'], idx)
+        names = {'::'.join(P.strip(n).split('::')[-2:]) for n, _, _ in sl['calls']}
+        # accessors applied in closures (`Variable::cast(parent).map(|var| var.identifier().node())`) count too
+        for cl in facts.closures_of(pr):
+            names |= {'::'.join(P.strip(callee_of(t2)['def']).split('::')[-2:]) for b2, t2 in cl.calls() if callee_of(t2)}
+        got = {w for w in want if any(n.endswith(w) for n in names)}
+        direct = any(P.strip(n).endswith('handlers::syntax_at') for n, _, _ in sl['calls']) and not got
+        inst = {'range_from': sorted(got)}
+        if got == want:
+            c.ok(R, inst)
+        elif direct:
+            c.bad(R, 'prepare_rename:range-of-token-under-cursor', 'prepare_rename offers the range of the identifier token under the cursor: on the qualifier of `m.item` it offers `m` while rename replaces `item`', **inst)
+        else:
+            c.bad(R, 'prepare_rename:target-accessors:%s' % ','.join(sorted(want - got)), 'prepare_rename no longer selects its range through %s: the offered range is not the text rename replaces for that kind of parent' % sorted(want - got), **inst)
+
+
 def run(c, facts):
     import c17
+    c.run(r6_prepare_target, facts)
     c.run(r4_qualifier_local, facts)
     c.run(lambda c: c08.r5_binder_kind(c, facts, rule='C18.R1', crates=('oal_client',)))
     c.run(r2_edit_prov, facts)
@@ -151,6 +179,9 @@ def run(c, facts):
     R5 = c.rule('C18.R5', 'FRESH-TREES and STABLE-NAMES: rename works on trees of the current texts (shared with C15.R1/R2) and implicit component names do not depend on source positions (shared with C09.R2)')
     c.shared(R5, c15.r1_set_stale, 'C15.R1', facts)
     c.shared(R5, c15.r2_refresh_first, 'C15.R2', facts)
+    c.shared(R5, c15.r3_reset_all, 'C15.R3', facts)
+    c.shared(R5, c15.r6_doc_sync, 'C15.R6', facts)
+    c.shared(R5, c15.r4_change, 'C15.R4', facts)
     c.shared(R5, c09.r2_scoped_id, 'C09.R2', facts)
     R3 = c.rule('C18.R3', 'IDENT-LOC: reference edits replace exactly the unqualified identifier (shared with C17.R2)')
     c.shared(R3, c17.r2_ident_loc, 'C17.R2', facts)
